@@ -72,19 +72,32 @@ pub(crate) enum OutputBuffer {
 }
 
 impl OutputBuffer {
-    fn new(file: &std::fs::File, file_size: u64, output_config: OutputConfig) -> Self {
+    fn new(file: &std::fs::File, file_size: u64, output_config: OutputConfig) -> Result<Self> {
         if output_config.use_mmap {
             // For some types of output file (e.g. character devices) we can't mmap, so we try to
             // mmap the file and if it fails, fall back to non-mmapped output.
-            Self::new_mmapped(file, file_size)
-                .unwrap_or_else(|| Self::InMemory(vec![0; file_size as usize]))
+            if let Some(mmapped) = Self::new_mmapped(file, file_size) {
+                return Ok(mmapped);
+            }
         } else {
             // Try to set the length of the file. We ignore failures here because it's expected to
             // fail for some types of files, e.g. /dev/null. If there's actually a problem writing
             // to the file, we'll discover that when we go to write the content later on.
             let _ = file.set_len(file_size);
-            Self::InMemory(vec![0; file_size as usize])
         }
+
+        // Corrupt inputs can ask for an output that's far larger than what can be allocated.
+        // Report that rather than aborting.
+        let mut bytes = Vec::new();
+        if usize::try_from(file_size)
+            .ok()
+            .and_then(|size| bytes.try_reserve_exact(size).ok())
+            .is_none()
+        {
+            crate::bail!("Failed to allocate {file_size} bytes for the output file");
+        }
+        bytes.resize(file_size as usize, 0);
+        Ok(Self::InMemory(bytes))
     }
 
     fn new_mmapped(file: &std::fs::File, file_size: u64) -> Option<Self> {
@@ -348,7 +361,7 @@ impl SizedOutput {
             }
         };
 
-        let out = OutputBuffer::new(&file, file_size, output_config);
+        let out = OutputBuffer::new(&file, file_size, output_config)?;
 
         let trace = TraceOutput::new(output_config.should_write_trace, &path);
 
